@@ -769,3 +769,152 @@ Proof.
   apply (nth_concat_mk n (fun l' => nth c (nth b (nth a (cell i j k l') []) []) []) r azero l e); auto.
 Qed.
 End FourConcat.
+
+(* position x = (block k of the new order, local a) holds old index off r (p_k) + a *)
+Lemma nth_iperm r p k a : k < length p -> a < r (nth k p 0) ->
+  nth (off (fun k' => r (nth k' p 0)) k + a) (iperm r p) 0 = off r (nth k p 0) + a.
+Proof.
+  intros Hk Ha. unfold iperm. rewrite flat_map_concat_map.
+  rewrite <- (mk_nth_map (fun k0 => seq (off r k0) (r k0)) p).
+  rewrite (nth_concat_mk (length p) _ (fun k' => r (nth k' p 0)) 0 k a); auto.
+  - now rewrite seq_nth.
+  - intros; now rewrite seq_length.
+Qed.
+Lemma off_iperm_length r p : off (fun k' => r (nth k' p 0)) (length p) = length (iperm r p).
+Proof.
+  unfold iperm. rewrite flat_map_concat_map, <- (mk_nth_map (fun k0 => seq (off r k0) (r k0)) p).
+  symmetry. apply length_concat_mk. intros; now rewrite seq_length.
+Qed.
+
+(* ------------------------------------------------------------------ *)
+(* four indices: the store of the eight permuted writes                 *)
+(* ------------------------------------------------------------------ *)
+Section FourStore.
+Context {A : Type} (azero : A).
+Notation R4 := (list (list (list (list A)))).
+Notation swapax' := (swapax azero).
+
+Definition bkey (Bf : nat -> nat -> nat -> nat -> R4) (x : key) : R4 :=
+  let '(a, b, c, d) := x in Bf a b c d.
+
+(* EIGHT-FOLD BLOCK SYMMETRY, in the form the code relies on: each of the seven permuted
+   copies written by one (i,j,k,l) iteration (base_four_symm.py:215-226) is the block of the
+   permuted shell quartet *)
+Definition sym8 (n : nat) (Bf : nat -> nat -> nat -> nat -> R4) : Prop :=
+  forall i j k l, i < n -> j < n -> k < n -> l < n ->
+    Bf i j l k = swapax' 2 3 (Bf i j k l) /\
+    Bf j i k l = swapax' 0 1 (Bf i j k l) /\
+    Bf j i l k = swapax' 0 1 (swapax' 2 3 (Bf i j k l)) /\
+    Bf k l i j = swapax' 0 2 (swapax' 1 3 (Bf i j k l)) /\
+    Bf l k i j = swapax' 0 1 (swapax' 0 2 (swapax' 1 3 (Bf i j k l))) /\
+    Bf k l j i = swapax' 2 3 (swapax' 0 2 (swapax' 1 3 (Bf i j k l))) /\
+    Bf l k j i = swapax' 0 3 (swapax' 1 2 (Bf i j k l)).
+
+Lemma key_eqb_eq x y : key_eqb x y = true <-> x = y.
+Proof.
+  destruct x as [[[a b] c] d], y as [[[a' b'] c'] d']. unfold key_eqb.
+  rewrite !andb_true_iff, !Nat.eqb_eq. split.
+  - intros [[[-> ->] ->] ->]. reflexivity.
+  - intros E. inversion E. auto.
+Qed.
+
+Lemma in_pairs n a b : In (a, b) (pairs n) <-> a <= b /\ b < n.
+Proof.
+  unfold pairs. rewrite in_flat_map. split.
+  - intros (i & Hi & H). apply in_map_iff in H. destruct H as (j & E & Hj). inversion E; subst.
+    apply in_seq in Hi. apply in_seq in Hj. lia.
+  - intros [Hab Hb]. exists a. split; [apply in_seq; lia|]. apply in_map_iff. exists b. split; [reflexivity|].
+    apply in_seq. lia.
+Qed.
+
+(* two elements of a list: one of them heads a tail that contains the other *)
+Lemma tails_cover {B} (L : list B) u v : In u L -> In v L ->
+  exists tl rest, In tl (tails L) /\ ((tl = u :: rest /\ In v tl) \/ (tl = v :: rest /\ In u tl)).
+Proof.
+  induction L as [|x L IH]; intros Hu Hv; [destruct Hu|].
+  destruct Hu as [<-|Hu].
+  - exists (x :: L), L. split; [now left|]. left. split; [reflexivity|exact Hv].
+  - destruct Hv as [<-|Hv].
+    + exists (x :: L), L. split; [now left|]. right. split; [reflexivity|now right].
+    + destruct (IH Hu Hv) as (tl & rest & Hin & H). exists tl, rest. split; [now right|exact H].
+Qed.
+Lemma in_tails_sub {B} (L tl : list B) x : In tl (tails L) -> In x tl -> In x L.
+Proof.
+  induction L as [|y L IH]; intros Ht Hx; [destruct Ht|].
+  destruct Ht as [<-|Ht]; [exact Hx|]. right. now apply IH.
+Qed.
+
+Variables (n : nat) (Bf : nat -> nat -> nat -> nat -> R4).
+Hypothesis H8 : sym8 n Bf.
+
+Lemma writes8_consistent i j k l : i < n -> j < n -> k < n -> l < n ->
+  Forall (fun w => snd w = bkey Bf (fst w)) (writes8 azero i j k l (Bf i j k l)).
+Proof.
+  intros Hi Hj Hk Hl. destruct (H8 i j k l Hi Hj Hk Hl) as (E1 & E2 & E3 & E4 & E5 & E6 & E7).
+  unfold writes8. repeat constructor; cbn [fst snd bkey]; auto.
+Qed.
+
+Lemma all_writes_consistent :
+  Forall (fun w => snd w = bkey Bf (fst w)) (all_writes azero n Bf).
+Proof.
+  unfold all_writes. apply Forall_forall. intros w Hw. apply in_flat_map in Hw.
+  destruct Hw as (tl & Htl & Hw). destruct tl as [|[i j] rest]; [destruct Hw|].
+  apply in_flat_map in Hw. destruct Hw as ([k l] & Hkl & Hw).
+  assert (Hij : In (i, j) (pairs n)) by (eapply in_tails_sub; [exact Htl|now left]).
+  assert (Hkl' : In (k, l) (pairs n)) by (eapply in_tails_sub; [exact Htl|exact Hkl]).
+  apply in_pairs in Hij. apply in_pairs in Hkl'.
+  pose proof (writes8_consistent i j k l ltac:(lia) ltac:(lia) ltac:(lia) ltac:(lia)) as HF.
+  rewrite Forall_forall in HF. now apply HF.
+Qed.
+
+Lemma all_writes_cover i j k l : i < n -> j < n -> k < n -> l < n ->
+  exists w, In w (all_writes azero n Bf) /\ fst w = (i, j, k, l).
+Proof.
+  intros Hi Hj Hk Hl.
+  set (i' := Nat.min i j). set (j' := Nat.max i j). set (k' := Nat.min k l). set (l' := Nat.max k l).
+  assert (Hu : In (i', j') (pairs n)) by (apply in_pairs; unfold i', j'; lia).
+  assert (Hv : In (k', l') (pairs n)) by (apply in_pairs; unfold k', l'; lia).
+  destruct (tails_cover (pairs n) _ _ Hu Hv) as (tl & rest & Htl & [[E Hin]|[E Hin]]).
+  - (* (i',j') heads the tail, (k',l') in it: keys 1-4 *)
+    assert (Hsub : forall w, In w (writes8 azero i' j' k' l' (Bf i' j' k' l')) -> In w (all_writes azero n Bf)).
+    { intros w Hw. unfold all_writes. apply in_flat_map. exists tl. split; [exact Htl|]. rewrite E.
+      apply in_flat_map. exists (k', l'). split; [now rewrite <- E|exact Hw]. }
+    destruct (Nat.le_ge_cases i j) as [Hij|Hij]; destruct (Nat.le_ge_cases k l) as [Hkl|Hkl].
+    + eexists. split; [apply Hsub; unfold writes8; left; reflexivity|]. cbn [fst]. unfold i', j', k', l'.
+      rewrite !Nat.min_l, !Nat.max_r by lia. reflexivity.
+    + eexists. split; [apply Hsub; unfold writes8; right; left; reflexivity|]. cbn [fst]. unfold i', j', k', l'.
+      rewrite Nat.min_l, Nat.max_r, Nat.min_r, Nat.max_l by lia. reflexivity.
+    + eexists. split; [apply Hsub; unfold writes8; do 2 right; left; reflexivity|]. cbn [fst]. unfold i', j', k', l'.
+      rewrite Nat.min_r, Nat.max_l, Nat.min_l, Nat.max_r by lia. reflexivity.
+    + eexists. split; [apply Hsub; unfold writes8; do 3 right; left; reflexivity|]. cbn [fst]. unfold i', j', k', l'.
+      rewrite Nat.min_r, Nat.max_l, Nat.min_r, Nat.max_l by lia. reflexivity.
+  - (* (k',l') heads the tail, (i',j') in it: keys 5-8 of the iteration (k',l',i',j') *)
+    assert (Hsub : forall w, In w (writes8 azero k' l' i' j' (Bf k' l' i' j')) -> In w (all_writes azero n Bf)).
+    { intros w Hw. unfold all_writes. apply in_flat_map. exists tl. split; [exact Htl|]. rewrite E.
+      apply in_flat_map. exists (i', j'). split; [now rewrite <- E|exact Hw]. }
+    destruct (Nat.le_ge_cases i j) as [Hij|Hij]; destruct (Nat.le_ge_cases k l) as [Hkl|Hkl].
+    + eexists. split; [apply Hsub; unfold writes8; do 4 right; left; reflexivity|]. cbn [fst]. unfold i', j', k', l'.
+      rewrite !Nat.min_l, !Nat.max_r by lia. reflexivity.
+    + eexists. split; [apply Hsub; unfold writes8; do 6 right; left; reflexivity|]. cbn [fst]. unfold i', j', k', l'.
+      rewrite Nat.min_l, Nat.max_r, Nat.min_r, Nat.max_l by lia. reflexivity.
+    + eexists. split; [apply Hsub; unfold writes8; do 5 right; left; reflexivity|]. cbn [fst]. unfold i', j', k', l'.
+      rewrite Nat.min_r, Nat.max_l, Nat.min_l, Nat.max_r by lia. reflexivity.
+    + eexists. split; [apply Hsub; unfold writes8; do 7 right; left; reflexivity|]. cbn [fst]. unfold i', j', k', l'.
+      rewrite Nat.min_r, Nat.max_l, Nat.min_r, Nat.max_l by lia. reflexivity.
+Qed.
+
+(* whatever the order of the writes ("last write wins"), every cell of the store is the
+   block of its own shell quartet *)
+Theorem lookup_all_writes i j k l : i < n -> j < n -> k < n -> l < n ->
+  lookup (all_writes azero n Bf) (i, j, k, l) = Bf i j k l.
+Proof.
+  intros Hi Hj Hk Hl. unfold lookup.
+  destruct (find (fun p => key_eqb (fst p) (i, j, k, l)) (rev (all_writes azero n Bf))) as [w|] eqn:Ef.
+  - apply find_some in Ef. destruct Ef as [Hin Hk']. apply key_eqb_eq in Hk'.
+    apply in_rev in Hin. pose proof all_writes_consistent as HF. rewrite Forall_forall in HF.
+    rewrite (HF w Hin), Hk'. reflexivity.
+  - exfalso. destruct (all_writes_cover i j k l Hi Hj Hk Hl) as (w & Hin & Hw).
+    apply in_rev in Hin. pose proof (find_none _ _ Ef w Hin) as Hn. cbn beta in Hn.
+    rewrite Hw in Hn. assert (key_eqb (i, j, k, l) (i, j, k, l) = true) by (now apply key_eqb_eq). congruence.
+Qed.
+End FourStore.
